@@ -10,9 +10,15 @@ cd /verif
 git -C /repo diff --quiet || { echo "/repo is dirty"; exit 2; }
 git -C /repo apply "$DST/patch.diff" || exit 2
 DETECT=""; EXPECT=""; EXPMAP=""
+TMPO=$(mktemp -d)
 for Q in $P "$@"; do
-  OUT=$(./bin/jetverif -prop $Q -tier quick -repo /repo -out /tmp/vout -findings /verif/known_findings.json 2>&1); RC=$?
-  KEYS=$(echo "$OUT" | grep -o 'key=[^ ]*' | sed 's/key=//' | tr '\n' ' ')
+  ( ./bin/jetverif -prop $Q -tier quick -repo /repo -out $TMPO/out.$Q -findings /verif/known_findings.json > $TMPO/$Q.log 2>&1; echo $? > $TMPO/$Q.rc ) &
+  while [ $(jobs -r | wc -l) -ge 8 ]; do sleep 0.2; done
+done
+wait
+for Q in $P "$@"; do
+  OUT=$(cat $TMPO/$Q.log); RC=$(cat $TMPO/$Q.rc)
+  KEYS=$(echo "$OUT" | grep 'status=violated\|status=undecided\|status=unresolved' | grep -o 'key=[^ ]*' | sed 's/key=//' | tr '\n' ' ')
   echo "  check $Q rc=$RC keys: $KEYS"
   R=""; if [ $RC -eq 1 ]; then R=$(echo "$KEYS" | awk '{print $1}' | cut -d/ -f1); fi
   if [ "$Q" = "$P" ]; then EXPECT=$R; fi
@@ -20,7 +26,8 @@ for Q in $P "$@"; do
   JKEYS=$(echo "$KEYS" | tr -d '"\\')
   DETECT="$DETECT{\"check\":\"$Q\",\"exit\":$RC,\"violated_keys\":\"$JKEYS\"},"
 done
-git -C /repo checkout -- .
+rm -rf $TMPO
+git -C /repo checkout -- . ; git -C /repo clean -fdq
 python3 - "$DST" "[${DETECT%,}]" "$EXPECT" "{${EXPMAP%,}}" <<'PY'
 import json,sys
 dst,det,expect,expmap=sys.argv[1:5]
